@@ -40,8 +40,7 @@ class State:
         self.main.add_namespace("ex", NS_A)
         self.main.set_default_namespace(NS_D)
         self.other = ProvDocument()
-        self.other.add_namespace("p", NS_A)
-        self.other.add_namespace("dd", NS_D)
+        self.other.add_namespace("p", NS_A)     # NS_D is never given a prefix: it is only ever a default namespace
         self.paths = set()
         self.multi = False
 
@@ -76,16 +75,27 @@ def _classes():
 
 def _spellings(c, ns, local, ctx):
     from prov.identifier import Namespace, QualifiedName
-    out = [("qn", QualifiedName(Namespace("zq", ns), local))]
+    out = []
+    registered = None
     for n in c.namespaces:
         if n.uri == ns:
-            out.append(("str", "%s:%s" % (n.prefix, local)))
+            registered = n.prefix
             break
     d = c.get_default_namespace()
-    if d is not None and d.uri == ns:
+    is_default = d is not None and d.uri == ns
+    if is_default:
         out.append(("bare", local))
     if any((ns + local).startswith(n.uri) for n in c.namespaces) or (d is not None and (ns + local).startswith(d.uri)):
         out.append(("uri", ns + local))
+    if registered is not None:
+        out.append(("str", "%s:%s" % (registered, local)))
+    # a QualifiedName on the caller's own Namespace object.  Resolving it registers its prefix in the container, which
+    # would give a namespace that is ONLY the default a prefix and so change what the other spellings exercise:
+    # for such a namespace the object carries the empty prefix (= the same default), otherwise a foreign prefix
+    if is_default and registered is None:
+        out.append(("qn", QualifiedName(Namespace("", ns), local)))
+    else:
+        out.append(("qn", QualifiedName(Namespace("zq", ns), local)))
     return out
 
 
@@ -149,7 +159,7 @@ def apply(s, op, ctx):
         c = cs[op[1] % len(cs)]
         kind = KINDS[op[2] % len(KINDS)]
         ns, local = POOL[op[3] % len(POOL)]
-        ident = _qn(["ex", "p", "zz", ""][op[4] % 4], ns, local)
+        ident = _qn(["ex", "p", "zz", ""][op[4] % 4] if ns != NS_D else "", ns, local)
         pname, tname, is_el, fargs, mand, fac, fac_id = spec.KINDS[kind]
         ref = _qn("ex", NS_A, "i1")
         if op[5] % 2 == 0:
